@@ -10,9 +10,18 @@ mod c18;
 mod c19;
 mod c20;
 mod miri;
+pub mod selftest;
 pub mod c13fm;
 
 pub fn dispatch(ctx: &Ctx, rep: &mut Report) {
+    if ctx.check == "selftest" {
+        let problems = selftest::run_all(&ctx.opt("vectors").unwrap_or_else(|| "/verif/vectors/golden.json".to_string()));
+        for p in &problems {
+            eprintln!("SELFTEST FAILED: {p}");
+        }
+        println!("selftest: {} problem(s)", problems.len());
+        std::process::exit(if problems.is_empty() { 0 } else { 4 });
+    }
     if ctx.leg == "miri" {
         match ctx.check.as_str() {
             "C15" => miri::c15(ctx, rep),
